@@ -512,6 +512,14 @@ _SIM = "flumine/execution/simulatedexecution.py"
 
 def MUTANTS(ctx):
     out = []
+    out.append(dict(id="c12-refused-cancel-completes-on-closed-market", file=_BF, func="BetfairExecution.execute_cancel",
+                    old='if instruction_report.error_code == "BET_TAKEN_OR_LAPSED":',
+                    new='if instruction_report.error_code in ("BET_TAKEN_OR_LAPSED", "MARKET_NOT_OPEN_FOR_BETTING"):',
+                    expect=["R1"], why="a bet that is live again after the market re-opens is complete locally"))
+    out.append(dict(id="c12-reset-overrules-complete", file="flumine/order/orderpackage.py", func="BaseOrderPackage.reset_orders",
+                    old="        for order in self:\n            with order.trade:\n                if complete:",
+                    new="        complete = complete and not self.async_\n        for order in self:\n            with order.trade:\n                if complete:",
+                    expect=["R4"], why="an async placement that exhausted its retries is left EXECUTABLE without a bet id"))
     # delete the setter of one branch (every setter statement in the per-order bodies)
     for cname, path in (("BetfairExecution", _BF), ("SimulatedExecution", _SIM)):
         for hname in ("execute_place", "execute_cancel", "execute_update", "execute_replace"):
